@@ -786,7 +786,7 @@ func buildV2Inputs(h *harness) (baseDAG, []v2Record) {
 		"tx-kid-on-tip", txSeed([]string{priv.Ref().String()}, int(priv.Clock())+1, ph, false, false))
 	listSeed := seeds[11]
 	n := 0
-	limit := h.r.Pick(160, 3000)
+	limit := h.r.Pick(100, 3000)
 	capture := func(in input) {
 		if n >= limit {
 			return
@@ -803,7 +803,7 @@ func buildV2Inputs(h *harness) (baseDAG, []v2Record) {
 		}
 		g.add(listSeed, env, nil, ops, false)
 	}
-	stride := h.r.Pick(7, 1)
+	stride := h.r.Pick(11, 1)
 	k := 0
 	genJSON(txSeeds, false, atk.jwsWrap)(h, &entry{name: "v2.tx"}, func(in input) {
 		k++
@@ -816,7 +816,7 @@ func buildV2Inputs(h *harness) (baseDAG, []v2Record) {
 	n = 0
 	ibltEntry(h).gen(h, &entry{name: "v2.iblt"}, func(in input) {
 		n++
-		if n%h.r.Pick(9, 1) != 0 || len(in.data) > 3<<20 {
+		if n%h.r.Pick(14, 1) != 0 || len(in.data) > 3<<20 {
 			return
 		}
 		env := proto.Clone(setSeed.env).(*v2.Envelope)
